@@ -305,9 +305,133 @@ def rand_ty(rng, depth):
         if c[1] in ids:
             continue
         ids.add(c[1]); alts.append(c)
+    if rng.random() < 0.4:
+        # Union with int / bytes / ByteString alternatives (Union[bytes, X], Union[X, int, bytes], ..) at any position.
+        # DOMAIN RESTRICTION (see ASSUMPTIONS of c18.py): at most one of bytes / ByteString -- in Union[bytes, ByteString]
+        # from_primitive rebuilds a ByteString of over 64 bytes through the first alternative as plain bytes and the
+        # long-bytes guard refuses the class's own output
+        prims = rng.choice([[['bytes']], [['bstr']], [['int']], [['int'], ['bytes']], [['bytes'], ['int']], [['bstr'], ['int']]])
+        if rng.random() < 0.15:
+            alts = []                  # no class alternative at all: Union[int, bytes]
+            prims = rng.choice([[['int'], ['bytes']], [['bytes'], ['int']], [['int'], ['bstr']]])
+        for pt in prims:
+            alts.insert(rng.randint(0, len(alts)), pt)
     if len(alts) < 2:
         return alts[0]                 # typing.Union[X] IS X: a one-alternative Union does not exist in Python
     return ['union', alts]
+
+
+# ---------------------------------------------------------------- long plain bytes (the long-bytes guard)
+LONG = [65, 65, 66, 100, 127, 128, 129, 192, 193]
+
+
+def takes_bytes(t):
+    """a plain bytes value in a field declared t passes validate(): bytes, Datum, a Union with such an alternative, and --
+    because typing.Dict[..].__origin__ is dict, not typing.Dict -- ANY Dict[..] annotation (a non-dict value is not
+    checked at all)"""
+    k = t[0]
+    return k in ('bytes', 'datum', 'dict') or (k == 'union' and any(takes_bytes(a) for a in t[1]))
+
+
+def conforms_bytes(t):
+    """the field type can also DECODE a byte string into plain bytes (Dict[..] cannot: the value does not conform)"""
+    k = t[0]
+    return k in ('bytes', 'datum') or (k == 'union' and any(conforms_bytes(a) for a in t[1]))
+
+
+def obj_nodes(v, out):
+    """every class instance inside v that the driver builds through the dataclass constructor"""
+    k = v[0]
+    if k in ('l', 'il'):
+        for x in v[1]:
+            obj_nodes(x, out)
+    elif k == 'd':
+        for a, b in v[1]:
+            obj_nodes(a, out); obj_nodes(b, out)
+    elif k == 'o':
+        out.append(v)
+        for x in v[3]:
+            obj_nodes(x, out)
+    return out
+
+
+def inject_long(rng, x):
+    """put plain bytes of more than 64 bytes into a direct field of one class instance inside x (the top-level object,
+    one nested in a field / list / dict value or key / Union) whose declared type lets the value through validate();
+    returns 'conf' / 'nonconf' (a Dict[..] field) / None when no instance has such a field"""
+    cands = [(o, i) for o in obj_nodes(x, []) for i, ft in enumerate(o[2]) if takes_bytes(ft)]
+    if not cands:
+        return None
+    o, i = rng.choice(cands)
+    n = rng.choice(LONG) if rng.random() < 0.8 else rng.randint(65, 200)
+    o[3][i] = ['b', rbytes(rng, n).hex()]
+    return 'conf' if conforms_bytes(o[2][i]) else 'nonconf'
+
+
+def has_long_field(v):
+    """some class instance inside v holds plain bytes of more than 64 bytes as a direct field value"""
+    return any(f[0] == 'b' and len(f[1]) > 128 for o in obj_nodes(v, []) for f in o[3])
+
+
+def has_prim_union(t):
+    """the class description mentions a Union with an int / bytes / ByteString alternative"""
+    k = t[0]
+    if k == 'union':
+        return any(a[0] in ('int', 'bytes', 'bstr') or has_prim_union(a) for a in t[1])
+    if k == 'list':
+        return has_prim_union(t[1])
+    if k == 'dict':
+        return has_prim_union(t[1]) or has_prim_union(t[2])
+    if k == 'cls':
+        return any(has_prim_union(a) for a in t[2])
+    return False
+
+
+def guard_ty(rng):
+    """a field type that lets plain bytes through validate(), every declaration form"""
+    inner = rand_cls(rng, 1)
+    r = rng.random()
+    if r < 0.2:
+        return ['bytes']
+    if r < 0.4:
+        return ['datum']
+    if r < 0.8:
+        alts = [inner] + ([rand_cls(rng, 1)] if rng.random() < 0.3 else [])
+        alts = [a for j, a in enumerate(alts) if a[1] not in [b[1] for b in alts[:j]]]
+        alts.insert(rng.randint(0, len(alts)), ['bytes'])
+        if rng.random() < 0.3:
+            alts.insert(rng.randint(0, len(alts)), ['int'])
+        return ['union', alts]
+    return ['dict', rng.choice([['int'], ['bytes']]), rng.choice([['int'], inner])]
+
+
+def rand_guard_case(rng):
+    """a class with at least one field that lets plain bytes through validate(), possibly nested below another class
+    (direct field, List / Dict value, Union alternative), holding more than 64 plain bytes there"""
+    fts = [rand_ty(rng, 1) for _ in range(rng.choice([0, 0, 1, 2]))]
+    fts.insert(rng.randint(0, len(fts)), guard_ty(rng))
+    t = ['cls', rand_id(rng), fts]
+    r = rng.random()
+    if r < 0.5:
+        top = t
+    elif r < 0.65:
+        top = ['cls', rand_id(rng), [['int'], t]]
+    elif r < 0.8:
+        top = ['cls', rand_id(rng), [['list', t]]]
+    elif r < 0.9:
+        top = ['cls', rand_id(rng), [['dict', ['int'], t]]]
+    else:
+        other = rand_cls(rng, 1)
+        while other[1] == t[1]:
+            other = rand_cls(rng, 1)
+        top = ['cls', rand_id(rng), [['union', [other, t]]]]
+    for _ in range(20):
+        x = rand_val(rng, top, 0)
+        how = inject_long(rng, x)
+        if how:
+            return top, x, how
+    x = rand_val(rng, t, 0)
+    return t, x, inject_long(rng, x)
 
 
 def short_bytes(rng):
@@ -515,10 +639,14 @@ def c_case0(case, res):
         return f'(CRaw {c_data(case["d"])} {chx(bytes.fromhex(case["ref"]))} {c_obs(RAW_ROUTES, res)})'
     if k == 'typed':
         if res.get('construct') != 'ok':
-            obs = clist([cpair(cnat(9), '(OF false)')])
+            # refused at construction: the exception kind, and the decode of the reference bytes (needs the class only)
+            obs = clist([cpair(cnat(9), o_bytes(res['construct']))]
+                        + ([cpair(cnat(3), o_bytes(res['rt_ref']))] if res.get('rt_ref') is not None else []))
         else:
-            obs = c_obs(TYPED_ROUTES + [(9, 'construct', lambda r: '(OF true)')], res)
-        return f'(CTyped {c_ty(case["t"])} {c_pv(case["x"])} {chx(bytes.fromhex(case["ref"]))} {obs})'
+            routes = [r for r in TYPED_ROUTES if not (case.get('skip_ref') and r[1] == 'rt_ref')]
+            obs = c_obs(routes + [(9, 'construct', lambda r: '(OF true)')], res)
+        return (f'(CTyped {cbool(bool(case.get("pp")))} {c_ty(case["t"])} {c_pv(case["x"])} '
+                f'{chx(bytes.fromhex(case["ref"]))} {obs})')
     if k == 'guard':
         return f'(CGuard {cn(case["id"])} {cnat(case["n"])} {o_bytes(res["construct"])})'
     if k == 'tag':
